@@ -41,6 +41,8 @@ pub struct CaseCtx {
     next_who: Cell<u32>,
     /// addresses of children that are "also held outside": handed to the harness
     pub outside: RefCell<Vec<(ActorId, AnyAddr)>>,
+    /// weak handles that handlers obtained from their context and handed to the harness
+    pub exported: RefCell<Vec<(ActorId, crate::probe::Exported)>>,
     /// primary addresses of set-up actors (while the set-up task still holds them)
     pub primary: RefCell<Vec<Option<AnyAddr>>>,
     pub streams: RefCell<Vec<crate::probe::StreamCtl>>,
@@ -83,6 +85,7 @@ impl CaseCtx {
             next_handle: Cell::new(0),
             next_who: Cell::new(0),
             outside: RefCell::new(Vec::new()),
+            exported: RefCell::new(Vec::new()),
             primary: RefCell::new(Vec::new()),
             streams: RefCell::new(Vec::new()),
             last_client_time: Cell::new(0),
